@@ -14,7 +14,10 @@ from harness import pipe_common as PC
 PID = 'C16'
 BASE = {'X': 1, 'Y': 2, 'SP': 3, 'COMMA': 4, 'QT': 5, 'TAB': 6, 'BAR': 7, 'NL': 8, 'DASH': 9, 'ZED': 10, 'Tokens': '<- VWTokens', 'NSCount': 2, 'StripWholeLine': 'FALSE'}
 INVS = ['RoundTripCSV', 'RoundTripTSV', 'ArityExact', 'VWFieldsInColumns']
-CHARMAPS = [{1: 'x', 2: 'y', 10: 'z'}, {1: 'é', 2: 'ñ', 10: '\u3000'}, {1: '0', 2: '1', 10: '\u00a0'}, {1: 'A', 2: "'", 10: '\t'}, {1: 'x', 2: 'y', 10: '\u2003'}, {1: 'q', 2: 'w', 10: ':'}, {1: '\\', 2: 'y', 10: 'z'}]      # the last: the letter X is a backslash (no escape character in CSV/TSV)
+CHARMAPS = [{1: 'x', 2: 'y', 10: 'z'}, {1: 'é', 2: 'ñ', 10: '\u3000'}, {1: '0', 2: '1', 10: '\u00a0'}, {1: 'A', 2: "'", 10: '\t'}, {1: 'x', 2: 'y', 10: '\u2003'}, {1: 'q', 2: 'w', 10: ':'}]
+# CSV / TSV only: the letter X is a backslash (there is no escape character) or a control character that str.splitlines()
+# breaks on although it is not a line break for files or for the csv module (form feed, file separator)
+SPECIAL_MAPS = [{1: '\\', 2: 'y', 10: 'z'}, {1: '\x0c', 2: 'y', 10: 'z'}, {1: '\x1c', 2: 'y', 10: 'z'}]
 FIXED = {3: ' ', 4: ',', 5: '"', 6: '\t', 7: '|', 8: '\n', 9: '-'}
 
 
@@ -71,7 +74,8 @@ def main():
         meta = []
         spans = [(i, CHARMAPS[(i // chunk + seed) % len(CHARMAPS)] if i else cm) for i in range(0, len(cases), chunk)]
         if fmt in ('csv', 'tsv'):
-            spans += [(i, CHARMAPS[-1]) for i in range(0, len(cases), chunk)]        # every row once more with the backslash as the letter
+            for cm_x in SPECIAL_MAPS:
+                spans += [(i, cm_x) for i in range(0, len(cases), chunk)]        # every row once more with each special character as the letter
         for i, cmi in spans:
             part = cases[i:i + chunk]
             lines = [text(c_[1], cmi) for c_ in part]
